@@ -134,6 +134,33 @@ def _replay_line(b):
     return _replay_cm(b) if b["kind"] == "cm" else _replay_err(b)
 
 
+def _record_big(item):
+    """T: a larger confusion-matrix case than the generator enumerates (K as 1-based positions for the spec)."""
+    import random
+    import kneeliverse.evaluation as ev
+    cid, seed = item
+    rng = random.Random(seed)
+    n = rng.choice([33, 65, 129, 257])
+    P = np.column_stack([np.arange(n, dtype=float), np.array([rng.random() * 500 for _ in range(n)])])
+    nk = rng.randint(2, min(30, n // 3))
+    K = sorted(rng.sample(range(n), nk))
+    ne = rng.randint(2, min(40, n - nk))
+    ex = [rng.choice(K) + rng.choice([0, 0, 1, -1, 2, 3, -4]) if rng.random() < 0.7 else rng.randrange(n) for _ in range(ne)]
+    ex = [min(max(v, 0), n - 1) for v in ex]
+    E = np.array([[float(v), rng.random() * 500] for v in ex])
+    tn, td = rng.choice([(0, 1), (1, 64), (1, 32), (1, 16), (1, 8), (3, 64)])
+    try:
+        m = ev.cm(P, np.array(K), E, tn / td)
+        out, cm = "returned", [[int(v) for v in row] for row in np.asarray(m).tolist()]
+    except Exception as exn:
+        out, cm = "raised:" + type(exn).__name__, [[0, 0], [0, 0]]
+    return {"id": cid, "outcome": out, "n": n, "K": [k + 1 for k in K], "E": [[int(v), 0] for v in ex], "t": [tn, td], "cm": cm}, {"big": [cid, seed]}
+
+
+STATIC_BIG = {"id": "s", "outcome": "returned", "n": 9, "K": [3, 8], "E": [[2, 0], [7, 0], [3, 0]], "t": [1, 8],
+              "cm": [[2, 0], [1, 6]]}
+
+
 def run(ctx):
     ctx.rule = ("TLC enumerates (Evaluation.tla) kind cm: curves x=0..n-1, every knee index subset, every expected x "
                 "sequence with |K|+|E| <= n (bounded length), t in {0,1/8,1/4,1/2,1}; kind err: every height vector in "
@@ -174,6 +201,15 @@ def run(ctx):
     ctx.extra["violating_behaviours_by_clause"] = dict(seen)
     ctx.extra["drift_observations"] = drifts
     ctx.traces += len(beh)
+    # ---- T: larger confusion-matrix cases judged by GreedyTP
+    import copy
+    rec = par.pmap(_record_big, [("B%d" % k, ctx.seed * 977 + k) for k in range(300 if ctx.quick else 3000)])
+    b1 = copy.deepcopy(STATIC_BIG); b1["cm"] = [[3, 0], [0, 6]]
+    b2 = copy.deepcopy(STATIC_BIG); b2["cm"] = [[1, 1], [2, 5]]
+    _validate_big(ctx, [c for c, _ in rec], {c["id"]: m for c, m in rec},
+                  selftest=[(STATIC_BIG, "ok"), (b1, "cm-identities"), (b2, "cm-greedy-count")])
+    for c, _ in rec:
+        ctx.count(("big", c["n"], c["K"], c["E"], c["t"]), c["cm"][0][0] >= 1 and c["cm"][1][0] >= 1)
     for pick in (lambda b: b["kind"] == "cm" and b["n"] == 5 and len(b["ex"]) == 3 and b["cm"][0][0] == 1 and b["maxmatch"] == 2,
                  lambda b: b["kind"] == "err" and b["n"] == 5 and len(b["knees"]) == 3 and len(b["expected"]) == 2
                  and b["strat"]["best"]["mae"] != b["strat"]["worst"]["mae"]):
@@ -182,7 +218,17 @@ def run(ctx):
             ctx.sample({"binding": "G", "behaviour": s})
 
 
+def _validate_big(ctx, cases, meta, selftest=None):
+    rej = ctx.trace("Trace_Evaluation", cases, selftest=selftest, chunk=200)
+    for cid, vs in rej.items():
+        ctx.violation(vs[0][0], {"kind": "Tbig", "big": meta[cid]["big"]}, {"verdict": [str(v)[:200] for v in vs[0]]})
+
+
 def replay(ctx, obj):
+    if obj["case"].get("kind") == "Tbig":
+        c, m = _record_big(tuple(obj["case"]["big"]))
+        _validate_big(ctx, [c], {c["id"]: m})
+        return
     bad, drift = _replay_line(obj["case"]["behaviour"])
     for clause, detail in bad:
         ctx.violation(clause, obj["case"], detail)
